@@ -240,6 +240,7 @@ func (d *decompressor) nextBlockAt(off int64, rs io.ReadSeeker) *decompressor {
 		}
 		d.err = d.cr.seek(rs, off)
 		if d.err != nil {
+			d.failAt(off)
 			d.wg.Done()
 			return d
 		}
@@ -248,6 +249,7 @@ func (d *decompressor) nextBlockAt(off int64, rs io.ReadSeeker) *decompressor {
 	d.blk.setBase(d.cr.offset())
 	d.err = d.readMember()
 	if d.err != nil {
+		d.failAt(off)
 		d.wg.Done()
 		return d
 	}
@@ -261,6 +263,16 @@ func (d *decompressor) nextBlockAt(off int64, rs io.ReadSeeker) *decompressor {
 	}()
 
 	return d
+}
+
+// failAt marks the decompressor's Block as the failed attempt to obtain
+// the member at off: it is labelled with off so that the Reader matches
+// it with the block it is waiting for and sees the error, and it holds
+// no data, so that data of the member it previously held cannot be
+// served for off.
+func (d *decompressor) failAt(off int64) {
+	d.blk.setOwner(d.owner)
+	d.blk.setBase(off)
 }
 
 // expectedMemberSize returns the size of the BGZF conformant gzip member.
